@@ -152,7 +152,9 @@ pub fn spec_level(raw: f32) -> f32 {
 }
 
 fn wanted(want: &str, prop: &str, clause: &str) -> bool {
-    want == prop || want == "ALL" || (want == "C17" && prop == "C02" && clause == "late")
+    // a phase that does not end in time is a hang for C17, and for C01 an attack / decay / release that never
+    // arrives at exactly 1.0 / the sustain level / 0.0
+    want == prop || want == "ALL" || ((want == "C17" || want == "C01") && prop == "C02" && clause == "late")
 }
 
 /// what a monitored run of one history learned besides the verdict (used by the C17/C20 drivers)
@@ -166,8 +168,14 @@ pub fn execute(h: &History, want: &str, rep: &mut Report, mut trace: Option<&mut
     let fs = h.fs;
     let fs64 = fs as f64;
     let mk = |prop: &str, clause: &str, msg: String, i: usize, ticks: Option<u64>| -> Violation {
-        let p = if want == "C17" { "C17" } else { prop };
-        let c = if want == "C17" && clause == "late" { "hang" } else { clause };
+        let p = if want == "C17" || (want == "C01" && clause == "late") { want } else { prop };
+        let c = if want == "C17" && clause == "late" {
+            "hang"
+        } else if want == "C01" && clause == "late" {
+            "end-level-not-reached"
+        } else {
+            clause
+        };
         Violation {
             clause: c.to_string(),
             signature: format!("{}:{}", p, c),
